@@ -71,6 +71,7 @@ type Exec struct {
 	bounded   int
 	boundHits int
 	stdOK     map[*ssa.Function]bool
+	recDepth   map[*ssa.Function]int
 	totalSteps int
 	budgetHit  bool
 	forceInline map[string]bool // bounded fallback, second attempt: callees executed in place although they have a contract
